@@ -86,6 +86,10 @@ class Module:
         # For most modules this will be `self`.
         self._elaborated: Optional[Module] = None
 
+        # Whether an elaboration pass has been through this module.
+        # From then on only the passes edit it: later passes, and later elaborations, skip the checks made so far.
+        self._frozen: bool = False
+
         # IOs as captured before bundle-flattening.
         # Bundle-valued ports are flattened into `ports` and removed from `bundles`, but need to be kept *somewhere* afterwards.
         # Set to `None` initially to indicate that it hasn't been set yet.
@@ -320,6 +324,8 @@ def _add(module: Module, val: ModuleAttr) -> ModuleAttr:
 
     if module._elaborated is not None:
         raise RuntimeError(f"Cannot add {val} to {module} after elaboration.")
+    if module._frozen:
+        raise RuntimeError(f"Cannot add {val} to {module} after its elaboration has begun.")
 
     # Protected names are off limits, whichever way the attribute arrives: `add` or `setattr`.
     # So are names which attribute-access never looks for in the module namespace.
